@@ -323,6 +323,22 @@ def run(ctx: Any, prog: Program) -> None:
     ctx.check('C08.D5', not early or reserves, vm, early[0] if early else fi,
               'a colliding fixup is re-indexed through self[...] = ... inside the first pass: the lowest index unused *so far* may be the legitimate index of a later entry, '
               'which then keeps it too (two variables share one replaceNN)', text='init defers re-indexing of duplicates')
+    # who may hand out a NEW index: only __setitem__ (the lowest-unused search).  Every other method of EntityFixup that builds a FixupValue
+    # carries over the index of an existing value (`<value>.id`); anything else - len() + 1, a counter - collides as soon as the indexes in use
+    # are not exactly 1..n (after a delete, or in a parsed entity with gaps)
+    n_fv = 0
+    for mname_, mfn_ in vm.methods('EntityFixup').items():
+        if mname_ == '__setitem__':
+            continue
+        for c in ast.walk(mfn_):
+            if isinstance(c, ast.Call) and dotted(c.func) == 'FixupValue' and (len(c.args) == 3 or any(k.arg == 'id' for k in c.keywords)):
+                idx_ = c.args[2] if len(c.args) == 3 else next(k.value for k in c.keywords if k.arg == 'id')
+                n_fv += 1
+                carried = isinstance(idx_, ast.Attribute) and idx_.attr == 'id' and isinstance(idx_.value, ast.Name)
+                ctx.check('C08.D5', carried, vm, c, f'EntityFixup.{mname_} creates a FixupValue with the index `{U(idx_)[:40]}`: outside __setitem__ (which searches for the lowest unused index) an index may only be carried '
+                          'over from an existing value - a computed one collides with an index in use when the table has gaps', func=f'EntityFixup.{mname_}', text=f'{mname_}: FixupValue index carried over')
+    if n_fv < 3:
+        raise AnalysisError(f'only {n_fv} FixupValue constructions found outside __setitem__ (copy_values, __copy__, __deepcopy__ confirmed by hand)')
     fs = vm.func('EntityFixup.__setitem__')
     ctor = [c for c in ast.walk(fs) if isinstance(c, ast.Call) and dotted(c.func) == 'FixupValue' and len(c.args) == 3]
     scope, res_var = fs, None
@@ -412,6 +428,7 @@ def run(ctx: Any, prog: Program) -> None:
 
 
 MUTANTS = [
+    {'id': 'setdefault_index_from_len', 'file': 'vmf.py', 'find': "            self[folded_var] = default\n            return default", 'replace': "            self._fixup[folded_var] = FixupValue(intern(var), conv_kv(default), len(self._fixup) + 1)\n            self._matcher = None\n            return default", 'expect': 'C08.D5'},
     {'id': 'ok_fixup_index_above_max', 'file': 'vmf.py', 'find': "            ind = 1\n            while ind in indexes:\n                ind += 1", 'replace': "            ind = max(max(indexes, default=0), 0) + 1", 'expect': None, 'refuse_ok': True},
     {'id': 'discard_lowers_to_non_positive', 'file': 'vmf.py', 'find': "        if 0 < element < self.search_pos:\n            self.search_pos = element", 'replace': "        if element < self.search_pos:\n            self.search_pos = element", 'expect': 'C08.D1'},
     {'id': 'entity_init_bulk_copies_keys', 'file': 'vmf.py', 'find': "        for k, v in keys.items():\n            self[k] = v\n\n        fixup_list = list(fixup)", 'replace': "        if isinstance(keys, _KeyDict):\n            self._keys.update(keys)\n        else:\n            for k, v in keys.items():\n                self[k] = v\n\n        fixup_list = list(fixup)", 'expect': 'C08.D4'},
